@@ -42,6 +42,12 @@ def main(ctx):
                     jobs.append({"sc": "disabled", "role": role, "start": start})
                 for sdt in (vals if role == "client" else []):
                     jobs.append({"sc": "peerclose", "role": role, "start": start, "sdt": sdt})
+                    if start == 0.0:
+                        jobs.append({"sc": "peerclose", "role": role, "start": start, "sdt": sdt, "echo": True})
+                if start == 0.0:
+                    for cht in vals:
+                        jobs.append({"sc": "close", "role": role, "start": start, "cht": cht,
+                                     "sdt": vals[-1], "how": "fail"})
                 for I in vals:
                     for T in vals + [0]:
                         for restart in (True, False):
@@ -66,7 +72,8 @@ def main(ctx):
               "close:responsive_ok", "drop:silent_dropped", "drop:responsive_ok",
               "ping:silent_dropped", "ping:responsive_ok", "ping:data_counts",
               "ping:data_does_not_count", "after_closed_checked", "pings_seen", "disabled_ok",
-              "stalled_peer_jobs", "ping:fragment_as_traffic", "proxy_jobs"):
+              "stalled_peer_jobs", "ping:fragment_as_traffic", "proxy_jobs", "close_started_by_failing",
+              "peerclose_echo"):
         ctx.require(n)
 
 
@@ -283,6 +290,13 @@ def job(a):
     elif sc == "close":
         cht, sdt = a["cht"], a["sdt"]
         opts = {"closeHandshakeTimeout": cht, "openHandshakeTimeout": 5}
+        # how = "fail": the closing handshake is started by FAILING the connection (the peer sent a
+        # frame with a reserved opcode, failByDrop=False): the same deadline and the same tolerance for
+        # a peer that answers our close frame in time
+        fail = a.get("how") == "fail"
+        if fail:
+            opts["failByDrop"] = False
+            count("close_started_by_failing")
         if role == "client":
             opts["serverConnectionDropTimeout"] = sdt
         for t1 in (0.0, 0.5):
@@ -294,7 +308,7 @@ def job(a):
                     r.handshake()
                     evals[0] += 1
                     case = {"t1": t1, "reply": reply, "tcpdrop": tdrop}
-                    acts = [(t1, lambda: r.p.sendClose(1000, "x"))]
+                    acts = [(t1, (lambda: r.feed_frame(3, b"x")) if fail else (lambda: r.p.sendClose(1000, "x")))]
                     if reply is not None:
                         acts.append((t1 + reply, lambda: r.feed_frame(8, r.F.close_payload(1000, b"ok"))))
                         if tdrop is not None:
@@ -319,7 +333,7 @@ def job(a):
                         if role == "server":
                             after(r, case)
                             oc = r.onclose()
-                            if len(oc) != 1 or oc[0][1] is not True:
+                            if len(oc) != 1 or (oc[0][1] is not True and not fail):
                                 bad("clean-close-not-reported", str(oc), case)
                         else:
                             if tdrop is None or tdrop > sdt + 1e-9:
@@ -335,7 +349,7 @@ def job(a):
                                 # serverConnectionDropTimeout is an exact timer: any earlier drop counts
                                 after(r, case)
                                 oc = r.onclose()
-                                if r.p.wasServerConnectionDropTimeout or len(oc) != 1 or oc[0][1] is not True:
+                                if r.p.wasServerConnectionDropTimeout or len(oc) != 1 or (oc[0][1] is not True and not fail):
                                     bad("responsive-peer-dropped", "server dropped TCP at +%s but %s" % (tdrop, oc), case)
                                 else:
                                     count("drop:responsive_ok")
@@ -390,6 +404,10 @@ def job(a):
         # the peer (server) initiates the close; the client answers and waits for the TCP drop
         sdt = a["sdt"]
         opts = {"serverConnectionDropTimeout": sdt, "closeHandshakeTimeout": 1}
+        if a.get("echo"):
+            # the client echoes the server's close code and reason in its reply
+            opts["echoCloseCodeReason"] = True
+            count("peerclose_echo")
         for tc in (0.0, 0.75):
             for tdrop in frange(0, sdt + 0.75) + [None]:
                 r = Run(role, opts, start)
